@@ -19,12 +19,13 @@ type ruleOp struct {
 
 type ruleSpec struct {
 	ID      string   `json:"id"`
-	Chain   []ruleOp `json:"chain"`         // [0] is the chain starter
-	Before  []string `json:"before"`        // comment / blank lines in front of the rule
-	Inside  bool     `json:"inside"`        // a comment line that mentions SecRule sits inside the chain
-	Trail   string   `json:"trail"`         // white space after `" \` on operator lines
-	Actions []string `json:"actions"`       // extra actions after the id line
-	Sep     string   `json:"sep,omitempty"` // white space between the directive name and the variables (default one blank)
+	Chain   []ruleOp `json:"chain"`             // [0] is the chain starter
+	Before  []string `json:"before"`            // comment / blank lines in front of the rule
+	Inside  bool     `json:"inside"`            // a comment line that mentions SecRule sits inside the chain
+	Trail   string   `json:"trail"`             // white space after `" \` on operator lines
+	Actions []string `json:"actions"`           // extra actions after the id line
+	Sep     string   `json:"sep,omitempty"`     // white space between the directive name and the variables (default one blank)
+	Compact bool     `json:"compact,omitempty"` // a rule without chain written on two lines: the operator line and one line with all actions
 }
 
 type rulesCase struct {
@@ -36,9 +37,10 @@ type rulesCase struct {
 	TargetID string            `json:"target_id"`
 	TargetK  int               `json:"target_k"`
 	Lane     string            `json:"lane"`
-	Prefix   string            `json:"prefix,omitempty"` // three-digit file prefix, default 932
-	IO       *ioScenario       `json:"io,omitempty"`     // an I/O-fault scenario (the other fields are unused then)
-	Twin     string            `json:"twin,omitempty"`   // a second entry of rules/ whose name matches the pattern of the rules file (a copy of it)
+	Prefix   string            `json:"prefix,omitempty"`   // three-digit file prefix, default 932
+	IO       *ioScenario       `json:"io,omitempty"`       // an I/O-fault scenario (the other fields are unused then)
+	NoMarker bool              `json:"nomarker,omitempty"` // the file ends with its last rule (no blank line and no SecMarker behind it)
+	Twin     string            `json:"twin,omitempty"`     // a second entry of rules/ whose name matches the pattern of the rules file (a copy of it)
 }
 
 func (c *rulesCase) prefix() string {
@@ -80,6 +82,10 @@ func (c *rulesCase) render(override map[string]string) (string, map[string]int) 
 				sep = " "
 			}
 			lines = append(lines, fmt.Sprintf(`%sSecRule%sREQUEST_COOKIES|ARGS_NAMES|ARGS|XML:/* "%s %s" \%s`, ind, sep, op.Op, operand, r.Trail))
+			if r.Compact && len(r.Chain) == 1 {
+				lines = append(lines, `    "id:`+r.ID+`,phase:2,block,t:none"`)
+				continue
+			}
 			if k == 0 {
 				lines = append(lines, ind+`    "id:`+r.ID+`,\`)
 				lines = append(lines, ind+`    phase:2,\`, ind+`    block,\`)
@@ -100,7 +106,11 @@ func (c *rulesCase) render(override map[string]string) (string, map[string]int) 
 		}
 		lines = append(lines, "")
 	}
-	lines = append(lines, `SecMarker "END-REQUEST-`+c.prefix()+`"`)
+	if c.NoMarker && len(lines) > 0 {
+		lines = lines[:len(lines)-1] // the blank line behind the last rule goes as well
+	} else {
+		lines = append(lines, `SecMarker "END-REQUEST-`+c.prefix()+`"`)
+	}
 	nl := "\n"
 	if c.CRLF {
 		nl = "\r\n"
@@ -210,6 +220,16 @@ func rulesGen(r *rand.Rand, lane string) *rulesCase {
 	if lane == "hostile" && core.Chance(r, 1, 4) {
 		// a rule with a longer id that starts with the same digits, placed first
 		c.Rules = append([]ruleSpec{{ID: c.Rules[0].ID + "1", Chain: []ruleOp{{"@rx", "seven digit id"}}}}, c.Rules...)
+	}
+	if core.Chance(r, 1, 5) {
+		// the file ends with a two-line rule (and often without a final newline): what lies behind the addressed chain
+		// is as short as a rule can be
+		last := &c.Rules[len(c.Rules)-1]
+		if len(last.Chain) == 1 {
+			last.Compact = true
+		}
+		c.NoMarker = true
+		c.NoFinal = core.Chance(r, 2, 3)
 	}
 	// choose the target
 	pickFrom := valid
